@@ -34,6 +34,7 @@ import (
 	"github.com/nuetzliches/hookaido/internal/queue"
 	"github.com/nuetzliches/hookaido/internal/router"
 	"github.com/nuetzliches/hookaido/internal/secrets"
+	"github.com/nuetzliches/hookaido/internal/verifhook"
 	"github.com/nuetzliches/hookaido/internal/workerapi"
 	workerapipb "github.com/nuetzliches/hookaido/internal/workerapi/proto"
 	"google.golang.org/grpc"
@@ -934,6 +935,7 @@ func (s *runtimeState) loadAuth(compiled config.Compiled) error {
 		}
 
 		auth := ingress.NewHMACAuth(secs)
+		verifhook.Publish("app.hmacauth", auth)
 		if strings.TrimSpace(rt.AuthHMACSignatureHeader) != "" {
 			auth.SignatureHeader = rt.AuthHMACSignatureHeader
 		}
@@ -976,6 +978,7 @@ func (s *runtimeState) loadAuth(compiled config.Compiled) error {
 	s.forwardByRoute = forwardByRoute
 	s.hmacByRoute = hmacByRoute
 	s.mu.Unlock()
+	verifhook.Point("reload.auth_swapped")
 	return nil
 }
 
@@ -1111,6 +1114,7 @@ func reloadConfig(path string, running config.Compiled, state *runtimeState, log
 		return running, false
 	}
 	state.updateAll(compiled)
+	verifhook.Point("reload.routes_swapped")
 
 	logger.Info("config_reloaded_ok", slog.String("trigger", trigger))
 	return compiled, true
@@ -1646,6 +1650,7 @@ func writeFileAtomic(path string, data []byte) error {
 		return err
 	}
 	tmpPath := tmp.Name()
+	verifhook.Point("cfgwrite.tmp_created")
 	keepTemp := false
 	defer func() {
 		_ = tmp.Close()
@@ -1660,16 +1665,20 @@ func writeFileAtomic(path string, data []byte) error {
 	if _, err := tmp.Write(data); err != nil {
 		return err
 	}
+	verifhook.Point("cfgwrite.written")
 	if err := tmp.Sync(); err != nil {
 		return err
 	}
+	verifhook.Point("cfgwrite.synced")
 	if err := tmp.Close(); err != nil {
 		return err
 	}
+	verifhook.Point("cfgwrite.before_rename")
 	if err := os.Rename(tmpPath, path); err != nil {
 		return err
 	}
 	keepTemp = true
+	verifhook.Point("cfgwrite.renamed")
 
 	return syncDir(dir)
 }
@@ -1802,6 +1811,8 @@ func startServers(
 	}
 
 	workerHandler := workerapi.NewServer(pullHandler)
+	verifhook.Publish("app.pull", pullHandler)
+	verifhook.Publish("app.worker", workerHandler)
 	workerHandler.ResolveRoute = state.resolvePull
 	workerHandler.Authorize = state.authorizeWorker
 	if compiled.PullAPI.MaxBatch > 0 {
@@ -1809,6 +1820,8 @@ func startServers(
 	}
 
 	adminH := admin.NewServer(store)
+	verifhook.Publish("app.admin", adminH)
+	verifhook.Publish("app.ingress", ing)
 	adminH.Authorize = state.authorizeAdmin
 	adminH.ResolveTrendSignalConfig = func() queue.BacklogTrendSignalConfig {
 		return queueTrendSignalConfigFromCompiled(state.trendSignalsConfig())
@@ -1968,6 +1981,8 @@ func startServers(
 
 	servers := make([]shutdownServer, 0, len(entries)+2)
 	for _, e := range entries {
+		verifhook.Publish("app.server."+e.name, e.srv.Handler)
+		verifhook.Publish("app.listen."+e.name, e.ln.Addr().String())
 		servers = append(servers, e.srv)
 		serveOnListener(runtimeLogger, e.name, e.srv, e.ln, cancel)
 	}
@@ -1990,6 +2005,7 @@ func startServers(
 		listeners = append(listeners, grpcLn)
 		grpcSrv := grpc.NewServer(grpcOpts...)
 		workerapipb.RegisterWorkerServiceServer(grpcSrv, workerHandler)
+		verifhook.Publish("app.listen.grpc", grpcLn.Addr().String())
 		serveGRPCOnListener(runtimeLogger, "pull_worker_grpc", grpcSrv, grpcLn, cancel)
 		servers = append(servers, grpcServerHandle{server: grpcSrv})
 	}
